@@ -20,7 +20,11 @@ import (
 // client, which still holds the POST exchange, already resumes - the resume is either refused (409,
 // the stream is still claimed) or served, and a served resume must receive everything written later.
 func c08Race(version string, closeStream bool) vs.Verdict {
-	f := &e1Fail{prefix: "c08 race"}
+	return c08RaceAs("c08 race", version, closeStream)
+}
+
+func c08RaceAs(prefix, version string, closeStream bool) vs.Verdict {
+	f := &e1Fail{prefix: prefix}
 	ctx := context.Background()
 	vs.Quiet(true)
 	store := &c08Store{inner: NewMemoryEventStore(nil), appended: map[string][]string{}}
